@@ -68,7 +68,15 @@ def prove(assumptions, goal, opts):
                 return 'unknown', 'z3:unsat/cvc5:sat', time.time() - t0, None
         return 'unsat', 'z3', dt, None
     if r == z3.sat:
-        return 'sat', 'z3', dt, s.model()
+        m = s.model()
+        # validate the counter-model (the sequence solver occasionally reports sat with a model that satisfies the goal)
+        try:
+            gv = m.eval(goal, model_completion=True)
+        except z3.Z3Exception:
+            gv = None
+        if gv is None or not z3.is_true(gv):
+            return 'sat', 'z3', dt, m
+        STATS['spurious_models'] = STATS.get('spurious_models', 0) + 1
     # unknown: second engine
     v2 = _cvc5(s, opts)
     dt = time.time() - t0
